@@ -113,3 +113,12 @@ def _derived_before_store(case, v):
     """y = f(x) derived before to_zarr(x)/store(x) of the not-yet-computed x: y later reads x
     from its old location (runtime fact recorded by the check from the real plan DAGs)."""
     return v.get("cls") == "value_changed_by_history" and bool(v.get("ancestor_stored_after_derivation"))
+
+
+@matcher("cross_process_name_collision")
+def _xproc_collision(case, v):
+    """An array built in another interpreter shares generated node names (array-00N / op-00N) with
+    arrays built locally; merging the plans by name confuses them (runtime fact: the check records
+    whether the unpickled array's DAG and the local arrays' DAGs share a node name)."""
+    return bool(v.get("name_collision")) and (v.get("cls", "").startswith("wrong_value_combined")
+                                              or v.get("cls", "").startswith("compute_failed"))
